@@ -106,15 +106,19 @@ class MemoryWorkflowStore(AbstractWorkflowStore):
 
     async def update(self, handler: PersistentHandler) -> None:
         self.handlers[handler.handler_id] = handler
+        # One queue entry per stored completed handler: a repeated terminal update
+        # moves the handler to the back instead of counting it twice against the
+        # cap, and a handler re-opened as running no longer counts at all.
+        self._forget_completion(handler.handler_id)
         if is_terminal_status(handler.status):
-            # One queue entry per handler: a repeated terminal update moves the
-            # handler to the back instead of counting it twice against the cap.
-            try:
-                self._terminal_queue.remove(handler.handler_id)
-            except ValueError:
-                pass
             self._terminal_queue.append(handler.handler_id)
             self._evict_oldest_completed()
+
+    def _forget_completion(self, handler_id: str) -> None:
+        try:
+            self._terminal_queue.remove(handler_id)
+        except ValueError:
+            pass
 
     async def delete(self, query: HandlerQuery) -> int:
         to_delete = [
@@ -124,6 +128,8 @@ class MemoryWorkflowStore(AbstractWorkflowStore):
         ]
         for handler_id in to_delete:
             del self.handlers[handler_id]
+            # a deleted handler must not keep counting against max_completed
+            self._forget_completion(handler_id)
         return len(to_delete)
 
     def _evict_oldest_completed(self) -> None:
